@@ -191,6 +191,13 @@ func decryptPayload(keys [][]byte, msg []byte, data []byte) ([]byte, error) {
 		if err == nil {
 			// Remove the PKCS7 padding for vsn 0
 			if vsn == 0 {
+				// The version byte is not covered by the authentication
+				// tag, so a version 1 (unpadded) payload can be relabelled
+				// as version 0. Validate the padding before removing it
+				// instead of slicing out of range.
+				if n := len(plain); n == 0 || int(plain[n-1]) > n {
+					return nil, fmt.Errorf("invalid PKCS7 padding")
+				}
 				return pkcs7decode(plain, aes.BlockSize), nil
 			} else {
 				return plain, nil
